@@ -62,6 +62,7 @@ class FillRequestSeq(lena_sequence.LenaSequence):
         ##| not sure now. Why is it not documented?
         # `-> *args* can consist of one tuple,
         #     which in that case is expanded.
+        self._name = "FillRequestSeq"  # for repr
         fill_compute_seq._init_sequence_with_el(
             self, args, "_fill_request",
             check_sequence_type.is_fill_request_el,
